@@ -160,6 +160,11 @@ func (p *Program) preDecodeBlocks() ExitReason {
 		p.InstrIdxAt[i] = -1
 	}
 
+	// operands are decoded from zeta = c ++ [0, 0, ...] (GP A.3): an instruction whose operand
+	// bytes run past the end of the code reads zeros instead of slicing past the code
+	padded := make(ProgramCode, n+32)
+	copy(padded, idata)
+
 	pc := ProgramCounter(0)
 	for pc < ProgramCounter(n) {
 		if !bitmask.IsStartOfBasicBlock(pc) {
@@ -192,7 +197,7 @@ func (p *Program) preDecodeBlocks() ExitReason {
 			})
 			p.InstrIdxAt[pc] = int32(idx)
 
-			decodeOperands(&p.Instrs[idx], idata, bitmask)
+			decodeOperands(&p.Instrs[idx], padded, bitmask)
 
 			if IsBlockTerminator(op) {
 				block.EndPC = pc
